@@ -134,7 +134,42 @@ func runC06(s *core.Sim, tier string) RunInfo {
 				continue
 			}
 			hist = append(hist, "stop+start")
-			if err := w.Restart(); err != nil {
+			if !failMode && s.Tape.Coin("read-error-during-start", 1, 5) {
+				// the datastore fails one read while the Store starts: Start may refuse with that
+				// error - and must leave everything as it is for the next Start
+				if err := w.Stop(); err != nil {
+					s.Violate("stop-error", nil, "Stop: %v", err)
+					break
+				}
+				r0, _ := w.Disk.Counts()
+				at := r0 + s.Tape.Draw("fail-read", 6)
+				hit := false
+				w.Disk.Fault = func(class, op, key string, idx int) error {
+					if class == "read" && idx == at {
+						hit = true
+						return simdisk.ErrInjected
+					}
+					return nil
+				}
+				err := w.Open()
+				w.Disk.Fault = nil
+				hist = append(hist, fmt.Sprintf("  start with a failing read: hit=%v err=%v", hit, err != nil))
+				s.Probe("read-error-during-start")
+				if err == nil {
+					// started all the same (the failing read was not essential, or not reached)
+					if serr := w.Stop(); serr != nil {
+						s.Violate("stop-error", nil, "Stop: %v", serr)
+						break
+					}
+				} else if !hit {
+					s.Violate("start-error", map[string]string{"after": "clean-stop"}, "Start after clean Stop: %v", err)
+					break
+				}
+				if err := w.Open(); err != nil {
+					s.Violate("start-error", map[string]string{"after": "failed-start"}, "Start after a Start that failed on a datastore read error: %v", err)
+					break
+				}
+			} else if err := w.Restart(); err != nil {
 				s.Violate("start-error", map[string]string{"after": "clean-stop"}, "Start after clean Stop: %v", err)
 				break
 			}
